@@ -283,11 +283,12 @@ AC_DOMAIN = {"&&": "DOM_BOOL", "||": "DOM_BOOL", "*": "DOM_SMALLINT", "cross": "
 
 def gen_value_harnesses(entries):
     out = ["// GENERATED on every run by /verif/extract/gen_tables.py — DO NOT EDIT.",
-           "// One totality harness (C17) per entry of the value table, scalar tier and array tier, and one",
+           "// One totality harness (C17) per entry of the value table, scalar tier and array tier (Val<i32, f64>) and",
+           "// scalar tier of the second instantiation Val<i64, f32>, and one",
            "// associativity/commutativity harness (C16 O-flag-AC) per entry flagged `is_commutative: true`.",
            "#![allow(non_snake_case)]",
            "use crate::gen_value_table::*;", "use crate::u7::*;"]
-    names = {"total_scalar": [], "total_array": [], "ac": [], "ac_slow": [], "const": []}
+    names = {"total_scalar": [], "total_array": [], "total_i64_f32": [], "ac": [], "ac_slow": [], "const": []}
     for e in entries:
         nm = ident(e["repr"])
         unw = {"^": 34, "fact": 16}.get(e["repr"], 3)
@@ -297,6 +298,8 @@ def gen_value_harnesses(entries):
             out.append("vharness!(ta_%s_bin, unwind = %d, |s| { total2(s, e_%s_bin::<i32, f64>, true, %s) });" % (nm, max(unw, 11), nm, prop))
             names["total_scalar"].append("t_%s_bin" % nm)
             names["total_array"].append("ta_%s_bin" % nm)
+            out.append("vharness!(tg_%s_bin, unwind = %d, |s| { total2g::<S, i64, f32, _>(s, e_%s_bin::<i64, f32>) });" % (nm, {"^": 66}.get(e["repr"], 7), nm))
+            names["total_i64_f32"].append("tg_%s_bin" % nm)
             if e["comm"] == "true":
                 out.append("vharness!(ac_%s, unwind = 7, |s| { ac_check(s, e_%s_bin::<i32, f64>, %s) });" % (nm, nm, AC_DOMAIN.get(e["repr"], "DOM_INTBOOL")))
                 # `*`: multiplier associativity needs ~6 min of SAT time even on |x| <= 100 -> thorough tier
@@ -306,7 +309,9 @@ def gen_value_harnesses(entries):
             out.append("vharness!(ta_%s_un, unwind = %d, |s| { total1(s, e_%s_un::<i32, f64>, true, %s) });" % (nm, max(unw, 11), nm, prop))
             names["total_scalar"].append("t_%s_un" % nm)
             names["total_array"].append("ta_%s_un" % nm)
-    allh = names["total_scalar"] + names["total_array"] + names["ac"] + names["ac_slow"]
+            out.append("vharness!(tg_%s_un, unwind = %d, |s| { total1g::<S, i64, f32, _>(s, e_%s_un::<i64, f32>) });" % (nm, {"fact": 24}.get(e["repr"], 7), nm))
+            names["total_i64_f32"].append("tg_%s_un" % nm)
+    allh = names["total_scalar"] + names["total_array"] + names["total_i64_f32"] + names["ac"] + names["ac_slow"]
     out.append("registry!(\"vgen\", %s);" % ", ".join(allh))
     return "\n".join(out) + "\n", names
 
